@@ -12,8 +12,7 @@ C08 — executable model of the built-in load-balancing selection policies
   abstract: every upstream record carries `h`, the hash of its dial address with the
   request's effective key, and `id`, its dial identity (two upstreams have the same
   cookie token iff they have the same `id`).
-* Go panics (index out of range, integer divide by zero in weighted round robin) are
-  explicit outcomes.
+* Go panics (index out of range, nil pointer dereference) are explicit outcomes.
 * The request-derived facts a policy looks at sit in the policy term itself:
   `keyed present fb` (header / query: is the key present and non-empty?),
   `cookie c fb` (does the request carry the cookie of dial `c`?).
@@ -52,7 +51,6 @@ inductive Res where
   | none                -- returned nil
   | sel (i : Nat)       -- returned `pool[i]`
   | panicIdx            -- Go: index out of range
-  | panicDiv            -- Go: integer divide by zero
   | panicNil            -- Go: nil pointer dereference (`http.SetCookie` on a nil ResponseWriter)
   | starved             -- model artefact: the draw list was too short
 deriving DecidableEq, Repr
@@ -96,44 +94,38 @@ def rrGo (pool : Pool) : Nat → Nat → Res × Nat
 def selRR (pool : Pool) (c : Nat) : Res × Nat :=
   if pool.length = 0 then (.none, c) else rrGo pool pool.length c
 
-/-! ### weighted_round_robin (selectionpolicies.go:131-176) -/
+/-! ### weighted_round_robin (selectionpolicies.go:131-182) -/
 
-/-- the loop that turns `currentWeight` into an index into the positive weights -/
+/-- the loop that finds the owner of position `cw` in the cycle of configured weights (`owner`
+    keeps its zero value if the loop ends without a hit) -/
 def wrrIndexGo : List Nat → Nat → Nat → Nat → Nat
   | [], _, _, _ => 0
   | w :: ws, i, tot, cw => if cw < tot + w then i else wrrIndexGo ws (i + 1) (tot + w) cw
 
-/-- the loop collecting the candidate upstreams; `none` = `r.Weights[i]` out of range -/
-def wrrCollect (ws : List Nat) (cap : Nat) : Pool → Nat → List Nat → Option (List Nat)
-  | [], _, acc => some acc
-  | u :: rest, i, acc =>
-    if u.avail then
-      match ws[i]? with
-      | none => none
-      | some w =>
-        if w = 0 then wrrCollect ws cap rest (i + 1) acc
-        else if acc.length + 1 = cap then some (acc ++ [i])
-        else wrrCollect ws cap rest (i + 1) (acc ++ [i])
-    else wrrCollect ws cap rest (i + 1) acc
+/-- `weights[i] > 0 && pool[i].Available()` -/
+def wrrUsable (ws : List Nat) (pool : Pool) (i : Nat) : Bool :=
+  match pool[i]?, ws[i]? with
+  | some u, some w => decide (0 < w) && u.avail
+  | _, _ => false
 
-def posWeights (ws : List Nat) : List Nat := ws.filter (0 < ·)
+/-- the loop `for k < n`: the first usable position among owner, owner+1, … (cyclically over
+    the weight list); `fuel` is the number of iterations left -/
+def wrrScan (ws : List Nat) (pool : Pool) (owner : Nat) : Nat → Nat → Res
+  | 0, _ => .none
+  | fuel + 1, k =>
+    if wrrUsable ws pool ((owner + k) % ws.length) then .sel ((owner + k) % ws.length)
+    else wrrScan ws pool owner fuel (k + 1)
 
-def wrrIndex (ws : List Nat) (c : Nat) : Nat := wrrIndexGo (posWeights ws) 0 0 (c % ws.sum)
+/-- the weights that take part: those of upstreams that are in the pool -/
+def wrrEff (ws : List Nat) (pool : Pool) : List Nat := ws.take pool.length
 
-def wrrPick (idx : Nat) (ups : List Nat) : Res :=
-  if ups.length = 0 then .none
-  else match ups[idx % ups.length]? with
-    | some i => .sel i
-    | none => .panicIdx
-
-/-- `ws` = configured weights, `ws.sum` = `totalWeight` from `Provision` -/
+/-- `ws` = configured weights (`totalWeight` from `Provision` is `ws.sum`) -/
 def selWRR (ws : List Nat) (pool : Pool) (c : Nat) : Res × Nat :=
   if pool.length = 0 then (.none, c)
   else if ws.length < 2 then (selFirst pool, c)
-  else if ws.sum = 0 then (.panicDiv, inc32 c)
-  else match wrrCollect ws (posWeights ws).length pool 0 [] with
-    | none => (.panicIdx, inc32 c)
-    | some ups => (wrrPick (wrrIndex ws (inc32 c)) ups, inc32 c)
+  else if (wrrEff ws pool).sum = 0 then (.none, c)
+  else (wrrScan (wrrEff ws pool) pool (wrrIndexGo (wrrEff ws pool) 0 0 (inc32 c % (wrrEff ws pool).sum))
+          (wrrEff ws pool).length 0, inc32 c)
 
 /-! ### random (selectRandomHost, selectionpolicies.go:796-814) -/
 
